@@ -155,7 +155,8 @@ STEP_ORACLES = {pid: [pid] for pid in ("C03", "C04", "C05", "C06", "C07", "C14")
 STEP_ORACLES.update({"C04": ["C04", "C08"], "C02": ["C02"], "C20": ["C20"], "C08": ["C08"], "C09": ["C09", "C10", "C07"], "C10": ["C10", "C07"], "C11": ["C11", "C08"]})
 
 # records a property is about: what the simulation reports for them must be the model's value at each step
-REPORTED = {"C03": ["production_realised", "production_capacity"], "C04": ["final_demand_unmet", "rebuild_prod"],
+REPORTED = {"C01": ["production_realised", "overproduction", "final_demand_unmet", "intermediate_demand"],
+            "C03": ["production_realised", "production_capacity"], "C04": ["final_demand_unmet", "rebuild_prod"],
             "C06": ["intermediate_demand"], "C07": ["productive_capital_to_recover", "production_capacity"],
             "C08": ["rebuild_demand", "rebuild_prod", "productive_capital_to_recover"], "C09": ["productive_capital_to_recover"],
             "C10": ["productive_capital_to_recover", "production_capacity"], "C14": ["overproduction"], "C02": ["production_realised", "overproduction", "final_demand_unmet"],
@@ -166,11 +167,21 @@ RUN_ORACLES = {"C01": ["c01"], "C05": ["c05_run"], "C07": ["c07_capital"], "C08"
 INIT_OBLIGATIONS = {"C01": ["mkparams"], "C02": ["mkparams"], "C03": ["mkparams"], "C06": ["mkparams"], "C07": ["mkparams", "trackerinit"], "C08": ["trackerinit"], "C13": ["trackerinit"], "C18": ["mkparams"]}
 PAIRED = {"C01": ["long_loop_c01", "table_reuse"], "C05": ["c05_loop", "long_loop_c05"], "C10": ["c10_prefix", "long_loop", "c11_order_c10"], "C08": ["event_reuse"],
           "C09": ["event_reuse_c09"], "C11": ["c11_order", "long_loop_c11", "event_reuse_c11"], "C13": ["c13_units"], "C18": ["c18_variants", "c18_orders"],
-          "C19": ["c19_shift", "c19_late"], "C17": ["c17_determinism", "table_reuse_c17"]}
+          "C19": ["c19_shift", "c19_late"], "C17": ["c17_determinism"]}
+
+# what a property says about a recorded quantity relies on the record being written under its own name's guard, after its
+# phase (theorems over the regenerated next_step skeleton, Properties/C16.lean)
+for _pid in REPORTED:
+    for _t in ("Records.guards_complete", "Records.writes_after_their_phase", "Records.one_write_per_record"):
+        if _t not in THEOREMS[_pid]:
+            THEOREMS[_pid] = THEOREMS[_pid] + [_t]
+    if "Boario.Properties.C16" not in MODULES[_pid]:
+        MODULES[_pid] = MODULES[_pid] + ["Boario.Properties.C16"]
 
 # properties whose Lean side includes tables regenerated from the source on every run
 GEN = {"C16": True, "C17": True, "C02": True, "C14": True, "C04": True, "C11": True, "C05": True, "C19": True, "C01": True, "C10": True,
        "C03": True, "C07": True, "C09": True, "C20": True}
+GEN.update({_pid: True for _pid in REPORTED})
 
 NONTRIVIAL = {
     "C12": ("weights", "non-uniform weights or an invalid input"),
